@@ -14,6 +14,7 @@ import Mathlib.Tactic.Abel
 import Mathlib.Algebra.Order.BigOperators.Group.Finset
 import Mathlib.Order.Lattice.Nat
 import Mathlib.Order.Interval.Finset.Nat
+import Mathlib.Algebra.Order.Archimedean.Real.Basic
 
 set_option linter.unusedSectionVars false
 
@@ -1841,5 +1842,541 @@ end participation
 --  `walk_last_edge` for `lemma_walk_ends`: all proved.)
 -- (ninth batch: definitions `modsumN`, `msq`; `msq_zero`, `msq_succ` (`msq_succ_mul`) for `lemma_msq`, `modsum_def_row` for `lemma_modsum_def`,
 --  `msq_eq_pairs`, `msq_relabel` (C14: dependence on the partition only): all proved.)
+
+-- ===== TENTH BATCH: weighted walks, the weighted distance `wd` and the mathematical core of Dijkstra's algorithm =====
+-- Setting: `G` entrywise non-negative; there is a connection `v → w` iff `G v w ≠ 0` and its length is `G v w` (hence `> 0`).
+-- `wwalk G x y m ℓ`: a walk of `m` connections from `x` to `y` of total length `ℓ`; `reachw`: some walk (the empty one included);
+-- `wd G x y`: the infimum (in fact the minimum, `wd_attained`) of the lengths of all walks from `x` to `y`.
+section dijkstra
+variable {ι : Type} [Fintype ι] [DecidableEq ι]
+
+/-- `wwalk G x y m ℓ`: there is a walk of exactly `m` connections from `x` to `y` whose connection lengths add up to `ℓ` -/
+def wwalk (G : ι → ι → ℝ) (x : ι) : ι → ℕ → ℝ → Prop
+  | y, 0, ℓ => x = y ∧ ℓ = 0
+  | y, m + 1, ℓ => ∃ z ℓ', wwalk G x z m ℓ' ∧ G z y ≠ 0 ∧ ℓ = ℓ' + G z y
+
+/-- `reachw G x y`: `y` can be reached from `x` (by the empty walk if `x = y`) -/
+def reachw (G : ι → ι → ℝ) (x y : ι) : Prop := ∃ m ℓ, wwalk G x y m ℓ
+
+/-- `wd G x y`: the weighted distance, the infimum of the lengths of the walks from `x` to `y` (meaningful when `reachw G x y`) -/
+noncomputable def wd (G : ι → ι → ℝ) (x y : ι) : ℝ := sInf {ℓ | ∃ m, wwalk G x y m ℓ}
+
+theorem wwalk_zero (G : ι → ι → ℝ) (x y : ι) (ℓ : ℝ) : wwalk G x y 0 ℓ ↔ x = y ∧ ℓ = 0 := Iff.rfl
+
+theorem wwalk_succ (G : ι → ι → ℝ) (x y : ι) (m : ℕ) (ℓ : ℝ) :
+    wwalk G x y (m + 1) ℓ ↔ ∃ z ℓ', wwalk G x z m ℓ' ∧ G z y ≠ 0 ∧ ℓ = ℓ' + G z y := Iff.rfl
+
+theorem wwalk_refl (G : ι → ι → ℝ) (x : ι) : wwalk G x x 0 0 := ⟨rfl, rfl⟩
+
+theorem reachw_refl (G : ι → ι → ℝ) (x : ι) : reachw G x x := ⟨0, 0, wwalk_refl G x⟩
+
+/-- one connection -/
+theorem wwalk_one (G : ι → ι → ℝ) (x y : ι) (h : G x y ≠ 0) : wwalk G x y 1 (G x y) :=
+  (wwalk_succ G x y 0 _).mpr ⟨x, 0, wwalk_refl G x, h, by ring⟩
+
+/-- the length of a walk is non-negative -/
+theorem wwalk_nonneg (G : ι → ι → ℝ) (hG : ∀ x y, 0 ≤ G x y) (x : ι) :
+    ∀ m y ℓ, wwalk G x y m ℓ → 0 ≤ ℓ := by
+  intro m
+  induction m with
+  | zero =>
+    intro y ℓ h
+    rw [wwalk_zero] at h
+    rw [h.2]
+  | succ m ih =>
+    intro y ℓ h
+    obtain ⟨z, ℓ', hz, _, hl⟩ := (wwalk_succ G x y m ℓ).mp h
+    have := ih z ℓ' hz
+    have := hG z y
+    linarith
+
+/-- forgetting the length: a weighted walk is a walk of the file's unweighted `walk` -/
+theorem wwalk_walk (G : ι → ι → ℝ) (x : ι) : ∀ m y ℓ, wwalk G x y m ℓ → walk G x y m := by
+  intro m
+  induction m with
+  | zero =>
+    intro y ℓ h
+    exact h.1
+  | succ m ih =>
+    intro y ℓ h
+    obtain ⟨z, ℓ', hz, hzy, _⟩ := (wwalk_succ G x y m ℓ).mp h
+    exact (walk_succ G x y m).mpr ⟨z, ih z ℓ' hz, hzy⟩
+
+/-- every walk has a length -/
+theorem walk_wwalk (G : ι → ι → ℝ) (x : ι) : ∀ m y, walk G x y m → ∃ ℓ, wwalk G x y m ℓ := by
+  intro m
+  induction m with
+  | zero =>
+    intro y h
+    exact ⟨0, h, rfl⟩
+  | succ m ih =>
+    intro y h
+    obtain ⟨z, hz, hzy⟩ := (walk_succ G x y m).mp h
+    obtain ⟨ℓ', hl⟩ := ih z hz
+    exact ⟨ℓ' + G z y, (wwalk_succ G x y m _).mpr ⟨z, ℓ', hl, hzy, rfl⟩⟩
+
+/-- concatenation of weighted walks: connection counts and lengths add -/
+theorem wwalk_concat (G : ι → ι → ℝ) (x z : ι) (a : ℕ) (ℓ₁ : ℝ) (h1 : wwalk G x z a ℓ₁) :
+    ∀ b y ℓ₂, wwalk G z y b ℓ₂ → wwalk G x y (a + b) (ℓ₁ + ℓ₂) := by
+  intro b
+  induction b with
+  | zero =>
+    intro y ℓ₂ h2
+    rw [wwalk_zero] at h2
+    rw [← h2.1, h2.2, add_zero, add_zero]
+    exact h1
+  | succ b ih =>
+    intro y ℓ₂ h2
+    obtain ⟨w, ℓ', hw, hwy, hl⟩ := (wwalk_succ G z y b ℓ₂).mp h2
+    rw [← Nat.add_assoc]
+    exact (wwalk_succ G x y (a + b) _).mpr ⟨w, ℓ₁ + ℓ', ih w ℓ' hw, hwy, by rw [hl]; ring⟩
+
+/-- splitting a weighted walk of `a + b` connections after `a` connections -/
+theorem wwalk_split (G : ι → ι → ℝ) (x : ι) (a : ℕ) :
+    ∀ b y ℓ, wwalk G x y (a + b) ℓ → ∃ z ℓ₁ ℓ₂, wwalk G x z a ℓ₁ ∧ wwalk G z y b ℓ₂ ∧ ℓ = ℓ₁ + ℓ₂ := by
+  intro b
+  induction b with
+  | zero =>
+    intro y ℓ h
+    exact ⟨y, ℓ, 0, h, wwalk_refl G y, by ring⟩
+  | succ b ih =>
+    intro y ℓ h
+    rw [← Nat.add_assoc] at h
+    obtain ⟨w, ℓ', hw, hwy, hl⟩ := (wwalk_succ G x y (a + b) ℓ).mp h
+    obtain ⟨z, ℓ₁, ℓ₂, hz1, hz2, hl'⟩ := ih w ℓ' hw
+    exact ⟨z, ℓ₁, ℓ₂ + G w y, hz1, (wwalk_succ G z y b _).mpr ⟨w, ℓ₂, hz2, hwy, rfl⟩, by rw [hl, hl']; ring⟩
+
+/-- (D5) weighted reachability is reachability by the file's unweighted walks (any number of connections, `0` included) -/
+theorem reachw_iff_walk (G : ι → ι → ℝ) (x y : ι) : reachw G x y ↔ ∃ m, walk G x y m := by
+  constructor
+  · rintro ⟨m, ℓ, h⟩
+    exact ⟨m, wwalk_walk G x m y ℓ h⟩
+  · rintro ⟨m, h⟩
+    obtain ⟨ℓ, hl⟩ := walk_wwalk G x m y h
+    exact ⟨m, ℓ, hl⟩
+
+/-- (D5) `reachw(G,x,y) ↔ x == y ∨ sdist(G,x,y) >= 1` -/
+theorem reachw_iff_sdist (G : ι → ι → ℝ) (x y : ι) : reachw G x y ↔ x = y ∨ 1 ≤ sdist G x y := by
+  rw [reachw_iff_walk]
+  constructor
+  · rintro ⟨m, h⟩
+    rcases Nat.eq_zero_or_pos m with hm | hm
+    · left
+      rw [hm] at h
+      exact h
+    · right
+      exact (sdist_le G x y m h hm).1
+  · rintro (h | h)
+    · exact ⟨0, h⟩
+    · exact ⟨sdist G x y, walk_sdist G x y h⟩
+
+/-- (D5, second form) `reachw(G,x,y) ↔ x == y ∨ ∃ m ≥ 1, walk(G,x,y,m)` -/
+theorem reachw_iff_walk_pos (G : ι → ι → ℝ) (x y : ι) : reachw G x y ↔ x = y ∨ ∃ m, 1 ≤ m ∧ walk G x y m := by
+  rw [reachw_iff_sdist]
+  constructor
+  · rintro (h | h)
+    · exact Or.inl h
+    · exact Or.inr ⟨sdist G x y, h, walk_sdist G x y h⟩
+  · rintro (h | ⟨m, hm, h⟩)
+    · exact Or.inl h
+    · exact Or.inr (sdist_le G x y m h hm).1
+
+private lemma wlen_bdd (G : ι → ι → ℝ) (hG : ∀ x y, 0 ≤ G x y) (x y : ι) :
+    BddBelow {ℓ | ∃ m, wwalk G x y m ℓ} :=
+  ⟨0, fun ℓ ⟨m, h⟩ => wwalk_nonneg G hG x m y ℓ h⟩
+
+/-- the weighted distance is a lower bound of the walk lengths -/
+theorem wd_le (G : ι → ι → ℝ) (hG : ∀ x y, 0 ≤ G x y) (x y : ι) (m : ℕ) (ℓ : ℝ) (h : wwalk G x y m ℓ) :
+    wd G x y ≤ ℓ :=
+  csInf_le (wlen_bdd G hG x y) ⟨m, h⟩
+
+/-- the weighted distance is the greatest lower bound of the walk lengths (needs a walk) -/
+theorem le_wd (G : ι → ι → ℝ) (x y : ι) (c : ℝ) (hr : reachw G x y) (h : ∀ m ℓ, wwalk G x y m ℓ → c ≤ ℓ) :
+    c ≤ wd G x y := by
+  obtain ⟨m, ℓ, hw⟩ := hr
+  exact le_csInf ⟨ℓ, m, hw⟩ (fun ℓ' ⟨m', h'⟩ => h m' ℓ' h')
+
+/-- ε-characterisation: below `wd + ε` there is a walk -/
+theorem wd_approx (G : ι → ι → ℝ) (x y : ι) (hr : reachw G x y) (ε : ℝ) (hε : 0 < ε) :
+    ∃ m ℓ, wwalk G x y m ℓ ∧ ℓ < wd G x y + ε := by
+  obtain ⟨m, ℓ, hw⟩ := hr
+  have hne : ({ℓ | ∃ m, wwalk G x y m ℓ} : Set ℝ).Nonempty := ⟨ℓ, m, hw⟩
+  obtain ⟨ℓ', ⟨m', h'⟩, hlt⟩ := exists_lt_of_csInf_lt hne (show sInf {ℓ | ∃ m, wwalk G x y m ℓ} < wd G x y + ε by
+    unfold wd; linarith)
+  exact ⟨m', ℓ', h', hlt⟩
+
+/-- (D0) `reachw(G,x,y) → wd(G,x,y) >= 0` -/
+theorem wd_nonneg (G : ι → ι → ℝ) (hG : ∀ x y, 0 ≤ G x y) (x y : ι) (hr : reachw G x y) : 0 ≤ wd G x y :=
+  le_wd G x y 0 hr (fun m ℓ h => wwalk_nonneg G hG x m y ℓ h)
+
+/-- (D0) `wd(G,x,x) == 0` -/
+theorem wd_self (G : ι → ι → ℝ) (hG : ∀ x y, 0 ≤ G x y) (x : ι) : wd G x x = 0 :=
+  le_antisymm (wd_le G hG x x 0 0 (wwalk_refl G x)) (wd_nonneg G hG x x (reachw_refl G x))
+
+/-- (D2) relaxation: `reachw(G,x,v) ∧ G[v][w] != 0 → reachw(G,x,w) ∧ wd(G,x,w) <= wd(G,x,v) + G[v][w]` -/
+theorem wd_relax (G : ι → ι → ℝ) (hG : ∀ x y, 0 ≤ G x y) (x v w : ι) (hr : reachw G x v) (hvw : G v w ≠ 0) :
+    reachw G x w ∧ wd G x w ≤ wd G x v + G v w := by
+  constructor
+  · obtain ⟨m, ℓ, h⟩ := hr
+    exact ⟨m + 1, ℓ + G v w, (wwalk_succ G x w m _).mpr ⟨v, ℓ, h, hvw, rfl⟩⟩
+  · have : wd G x w - G v w ≤ wd G x v := by
+      apply le_wd G x v _ hr
+      intro m ℓ h
+      have := wd_le G hG x w (m + 1) (ℓ + G v w) ((wwalk_succ G x w m _).mpr ⟨v, ℓ, h, hvw, rfl⟩)
+      linarith
+    linarith
+
+/-- triangle inequality of the weighted distance -/
+theorem wd_triangle (G : ι → ι → ℝ) (hG : ∀ x y, 0 ≤ G x y) (x z y : ι) (h1 : reachw G x z) (h2 : reachw G z y) :
+    reachw G x y ∧ wd G x y ≤ wd G x z + wd G z y := by
+  constructor
+  · obtain ⟨a, ℓ₁, ha⟩ := h1
+    obtain ⟨b, ℓ₂, hb⟩ := h2
+    exact ⟨a + b, ℓ₁ + ℓ₂, wwalk_concat G x z a ℓ₁ ha b y ℓ₂ hb⟩
+  · have : wd G x y - wd G z y ≤ wd G x z := by
+      apply le_wd G x z _ h1
+      intro a ℓ₁ ha
+      have : wd G x y - ℓ₁ ≤ wd G z y := by
+        apply le_wd G z y _ h2
+        intro b ℓ₂ hb
+        have := wd_le G hG x y (a + b) (ℓ₁ + ℓ₂) (wwalk_concat G x z a ℓ₁ ha b y ℓ₂ hb)
+        linarith
+      linarith
+    linarith
+
+/-- a walk that starts inside a node set `P` and ends outside has a first connection `v → w` leaving `P`; the walk is at least as
+long as its prefix up to `v` plus that connection (the rest is non-negative) -/
+theorem wwalk_cross (G : ι → ι → ℝ) (hG : ∀ x y, 0 ≤ G x y) (P : ι → Prop) (u : ι) (hu : P u) :
+    ∀ m y ℓ, wwalk G u y m ℓ → ¬ P y →
+      ∃ v w a ℓ₁, P v ∧ ¬ P w ∧ G v w ≠ 0 ∧ wwalk G u v a ℓ₁ ∧ ℓ₁ + G v w ≤ ℓ := by
+  intro m
+  induction m with
+  | zero =>
+    intro y ℓ h hy
+    rw [wwalk_zero] at h
+    rw [← h.1] at hy
+    exact absurd hu hy
+  | succ m ih =>
+    intro y ℓ h hy
+    obtain ⟨z, ℓ', hz, hzy, hl⟩ := (wwalk_succ G u y m ℓ).mp h
+    by_cases hPz : P z
+    · exact ⟨z, y, m, ℓ', hPz, hy, hzy, hz, le_of_eq hl.symm⟩
+    · obtain ⟨v, w, a, ℓ₁, hv, hw, hvw, hwalk, hle⟩ := ih z ℓ' hz hPz
+      have := hG z y
+      exact ⟨v, w, a, ℓ₁, hv, hw, hvw, hwalk, by linarith⟩
+
+/-- the same with the weighted distance of the prefix: every walk from `u ∈ P` to a node outside `P` is at least as long as
+`wd(G,u,v) + G[v][w]` for some connection `v → w` leaving `P` (with `v` reachable) -/
+theorem wwalk_cross_wd (G : ι → ι → ℝ) (hG : ∀ x y, 0 ≤ G x y) (P : ι → Prop) (u : ι) (hu : P u)
+    (m : ℕ) (y : ι) (ℓ : ℝ) (h : wwalk G u y m ℓ) (hy : ¬ P y) :
+    ∃ v w, P v ∧ ¬ P w ∧ G v w ≠ 0 ∧ reachw G u v ∧ wd G u v + G v w ≤ ℓ := by
+  obtain ⟨v, w, a, ℓ₁, hv, hw, hvw, hwalk, hle⟩ := wwalk_cross G hG P u hu m y ℓ h hy
+  have := wd_le G hG u v a ℓ₁ hwalk
+  exact ⟨v, w, hv, hw, hvw, ⟨a, ℓ₁, hwalk⟩, by linarith⟩
+
+/-- lower-bound half of the Dijkstra step: if the tentative values `T` are lower bounds over the connections leaving `P`
+and `x` minimises `T` outside `P`, every walk from `u` to ANY node outside `P` has length at least `T x` -/
+theorem dijkstra_lower (G : ι → ι → ℝ) (hG : ∀ x y, 0 ≤ G x y) (P : ι → Prop) (u : ι) (hu : P u) (T : ι → ℝ)
+    (h3 : ∀ w, ¬ P w → ∀ v, P v → G v w ≠ 0 → T w ≤ wd G u v + G v w)
+    (x : ι) (hmin : ∀ w, ¬ P w → T x ≤ T w) :
+    ∀ y, ¬ P y → ∀ m ℓ, wwalk G u y m ℓ → T x ≤ ℓ := by
+  intro y hy m ℓ h
+  obtain ⟨v, w, hv, hw, hvw, _, hle⟩ := wwalk_cross_wd G hG P u hu m y ℓ h hy
+  have := h3 w hw v hv hvw
+  have := hmin w hw
+  linarith
+
+/-- (D3) THE DIJKSTRA STEP: `P` the permanent nodes (`u ∈ P`, all reachable from `u`), `T w` for temporary `w` the minimum of
+`wd(G,u,v) + G[v][w]` over the connections `v → w` with `v ∈ P` (`INF` if there is none).  A temporary node `x` with minimal
+tentative value `T x ≠ INF` is reachable and `T x` is its weighted distance.  (The monotonicity invariant `h2` of the algorithm
+is not needed for this step; it is re-established by `dijkstra_step_inv`.) -/
+theorem dijkstra_step (G : ι → ι → ℝ) (hG : ∀ x y, 0 ≤ G x y) (P : ι → Prop) (u : ι) (hu : P u) (T : ι → ℝ) (INF : ℝ)
+    (h1 : ∀ v, P v → reachw G u v)
+    (h3 : ∀ w, ¬ P w → (∀ v, P v → G v w ≠ 0 → T w ≤ wd G u v + G v w) ∧
+            (T w = INF ∨ ∃ v, P v ∧ G v w ≠ 0 ∧ T w = wd G u v + G v w))
+    (x : ι) (hx : ¬ P x) (hmin : ∀ w, ¬ P w → T x ≤ T w) (hxI : T x ≠ INF) :
+    reachw G u x ∧ wd G u x = T x := by
+  obtain ⟨v, hv, hvx, hT⟩ : ∃ v, P v ∧ G v x ≠ 0 ∧ T x = wd G u v + G v x := by
+    rcases (h3 x hx).2 with h | h
+    · exact absurd h hxI
+    · exact h
+  obtain ⟨hr, hle⟩ := wd_relax G hG u v x (h1 v hv) hvx
+  refine ⟨hr, le_antisymm (by rw [hT]; exact hle) ?_⟩
+  exact le_wd G u x (T x) hr
+    (dijkstra_lower G hG P u hu T (fun w hw => (h3 w hw).1) x hmin x hx)
+
+/-- (D3, invariant) after the step the chosen node is at most as far as every other reachable temporary node:
+`¬P w ∧ reachw(G,u,w) → wd(G,u,x) <= wd(G,u,w)` -/
+theorem dijkstra_step_le (G : ι → ι → ℝ) (hG : ∀ x y, 0 ≤ G x y) (P : ι → Prop) (u : ι) (hu : P u) (T : ι → ℝ) (INF : ℝ)
+    (h1 : ∀ v, P v → reachw G u v)
+    (h3 : ∀ w, ¬ P w → (∀ v, P v → G v w ≠ 0 → T w ≤ wd G u v + G v w) ∧
+            (T w = INF ∨ ∃ v, P v ∧ G v w ≠ 0 ∧ T w = wd G u v + G v w))
+    (x : ι) (hx : ¬ P x) (hmin : ∀ w, ¬ P w → T x ≤ T w) (hxI : T x ≠ INF) :
+    ∀ w, ¬ P w → reachw G u w → wd G u x ≤ wd G u w := by
+  intro w hw hr
+  rw [(dijkstra_step G hG P u hu T INF h1 h3 x hx hmin hxI).2]
+  exact le_wd G u w (T x) hr
+    (dijkstra_lower G hG P u hu T (fun w hw => (h3 w hw).1) x hmin w hw)
+
+/-- (D3, invariant) the invariants `h1` (permanent nodes are reachable) and `h2` (permanent nodes are at most as far as reachable
+temporary nodes) hold again for the enlarged permanent set `P ∪ {x}` -/
+theorem dijkstra_step_inv (G : ι → ι → ℝ) (hG : ∀ x y, 0 ≤ G x y) (P : ι → Prop) (u : ι) (hu : P u) (T : ι → ℝ) (INF : ℝ)
+    (h1 : ∀ v, P v → reachw G u v)
+    (h2 : ∀ v w, P v → ¬ P w → reachw G u w → wd G u v ≤ wd G u w)
+    (h3 : ∀ w, ¬ P w → (∀ v, P v → G v w ≠ 0 → T w ≤ wd G u v + G v w) ∧
+            (T w = INF ∨ ∃ v, P v ∧ G v w ≠ 0 ∧ T w = wd G u v + G v w))
+    (x : ι) (hx : ¬ P x) (hmin : ∀ w, ¬ P w → T x ≤ T w) (hxI : T x ≠ INF) :
+    (∀ v, (P v ∨ v = x) → reachw G u v) ∧
+    (∀ v w, (P v ∨ v = x) → ¬ (P w ∨ w = x) → reachw G u w → wd G u v ≤ wd G u w) := by
+  constructor
+  · rintro v (hv | hv)
+    · exact h1 v hv
+    · rw [hv]; exact (dijkstra_step G hG P u hu T INF h1 h3 x hx hmin hxI).1
+  · rintro v w (hv | hv) hw hr
+    · exact h2 v w hv (fun h => hw (Or.inl h)) hr
+    · rw [hv]
+      exact dijkstra_step_le G hG P u hu T INF h1 h3 x hx hmin hxI w (fun h => hw (Or.inl h)) hr
+
+/-- (D3, invariant) the tentative values after the usual update `T' w = min(T w, T x + G[x][w])` over the connections out of the
+new permanent node `x` satisfy `h3` for the enlarged permanent set `P ∪ {x}` -/
+theorem dijkstra_step_T (G : ι → ι → ℝ) (hG : ∀ x y, 0 ≤ G x y) (P : ι → Prop) (u : ι) (hu : P u) (T : ι → ℝ) (INF : ℝ)
+    (h1 : ∀ v, P v → reachw G u v)
+    (h3 : ∀ w, ¬ P w → (∀ v, P v → G v w ≠ 0 → T w ≤ wd G u v + G v w) ∧
+            (T w = INF ∨ ∃ v, P v ∧ G v w ≠ 0 ∧ T w = wd G u v + G v w))
+    (x : ι) (hx : ¬ P x) (hmin : ∀ w, ¬ P w → T x ≤ T w) (hxI : T x ≠ INF)
+    (T' : ι → ℝ)
+    (hT' : ∀ w, ¬ (P w ∨ w = x) → (G x w ≠ 0 → T' w = min (T w) (T x + G x w)) ∧ (G x w = 0 → T' w = T w)) :
+    ∀ w, ¬ (P w ∨ w = x) → (∀ v, (P v ∨ v = x) → G v w ≠ 0 → T' w ≤ wd G u v + G v w) ∧
+            (T' w = INF ∨ ∃ v, (P v ∨ v = x) ∧ G v w ≠ 0 ∧ T' w = wd G u v + G v w) := by
+  have hdx : wd G u x = T x := (dijkstra_step G hG P u hu T INF h1 h3 x hx hmin hxI).2
+  intro w hw
+  have hPw : ¬ P w := fun h => hw (Or.inl h)
+  obtain ⟨h3a, h3b⟩ := h3 w hPw
+  obtain ⟨hTa, hTb⟩ := hT' w hw
+  have hle : T' w ≤ T w := by
+    by_cases hxw : G x w = 0
+    · exact le_of_eq (hTb hxw)
+    · rw [hTa hxw]; exact min_le_left _ _
+  constructor
+  · rintro v (hv | hv) hvw
+    · exact le_trans hle (h3a v hv hvw)
+    · rw [hv] at hvw ⊢
+      rw [hTa hvw, hdx]
+      exact min_le_right _ _
+  · have hold : T' w = T w → (T' w = INF ∨ ∃ v, (P v ∨ v = x) ∧ G v w ≠ 0 ∧ T' w = wd G u v + G v w) := by
+      intro heq
+      rcases h3b with h | ⟨v, hv, hvw, hT⟩
+      · exact Or.inl (heq.trans h)
+      · exact Or.inr ⟨v, Or.inl hv, hvw, heq.trans hT⟩
+    by_cases hxw : G x w = 0
+    · exact hold (hTb hxw)
+    · rcases le_total (T w) (T x + G x w) with hc | hc
+      · exact hold (by rw [hTa hxw, min_eq_left hc])
+      · exact Or.inr ⟨x, Or.inr rfl, hxw, by rw [hTa hxw, min_eq_right hc, hdx]⟩
+
+/-- initialisation: the invariants `h1`, `h2`, `h3` hold for `P = {u}` and `T w = G[u][w]` if `G[u][w] != 0`, else `INF` -/
+theorem dijkstra_init (G : ι → ι → ℝ) (hG : ∀ x y, 0 ≤ G x y) (u : ι) (T : ι → ℝ) (INF : ℝ)
+    (hT : ∀ w, w ≠ u → (G u w ≠ 0 → T w = G u w) ∧ (G u w = 0 → T w = INF)) :
+    (∀ v, v = u → reachw G u v) ∧
+    (∀ v w, v = u → ¬ w = u → reachw G u w → wd G u v ≤ wd G u w) ∧
+    (∀ w, ¬ w = u → (∀ v, v = u → G v w ≠ 0 → T w ≤ wd G u v + G v w) ∧
+            (T w = INF ∨ ∃ v, v = u ∧ G v w ≠ 0 ∧ T w = wd G u v + G v w)) := by
+  refine ⟨?_, ?_, ?_⟩
+  · intro v hv; rw [hv]; exact reachw_refl G u
+  · intro v w hv _ hr
+    rw [hv, wd_self G hG u]
+    exact wd_nonneg G hG u w hr
+  · intro w hw
+    obtain ⟨ha, hb⟩ := hT w hw
+    constructor
+    · intro v hv hvw
+      rw [hv] at hvw ⊢
+      rw [ha hvw, wd_self G hG u, zero_add]
+    · by_cases huw : G u w = 0
+      · exact Or.inl (hb huw)
+      · exact Or.inr ⟨u, rfl, huw, by rw [ha huw, wd_self G hG u, zero_add]⟩
+
+/-- (D4) exhaustion: if every temporary node has the tentative value `INF` (and `INF` exceeds every `wd(G,u,v) + G[v][w]` over the
+connections `v → w` leaving `P`), no temporary node is reachable from `u` -/
+theorem dijkstra_exhausted (G : ι → ι → ℝ) (hG : ∀ x y, 0 ≤ G x y) (P : ι → Prop) (u : ι) (hu : P u) (T : ι → ℝ) (INF : ℝ)
+    (h3 : ∀ w, ¬ P w → (∀ v, P v → G v w ≠ 0 → T w ≤ wd G u v + G v w) ∧
+            (T w = INF ∨ ∃ v, P v ∧ G v w ≠ 0 ∧ T w = wd G u v + G v w))
+    (hINF : ∀ v w, P v → ¬ P w → G v w ≠ 0 → wd G u v + G v w < INF)
+    (hall : ∀ w, ¬ P w → T w = INF) :
+    ∀ w, ¬ P w → ¬ reachw G u w := by
+  rintro y hy ⟨m, ℓ, h⟩
+  obtain ⟨v, w, _, _, hv, hw, hvw, _, _⟩ := wwalk_cross G hG P u hu m y ℓ h hy
+  have h1 := (h3 w hw).1 v hv hvw
+  have h2 := hINF v w hv hw hvw
+  have h3 := hall w hw
+  linarith
+
+/-- `lemma_dijkstra(G, u, P, T, pr, n)` in the shape of the SMT instance: reachability written `u == v ∨ sdist(G,u,v) >= 1`
+(`reachw_iff_sdist`), the witness of a finite tentative value given by the predecessor array `pr`, the bound on `INF` only over the
+connections leaving `P`; conclusions: the step (`dijkstra_step`) and the exhausted case (`dijkstra_exhausted`).  The monotonicity
+hypothesis `_h2` of the instance is not used. -/
+theorem dijkstra_smt (G : ι → ι → ℝ) (hG : ∀ x y, 0 ≤ G x y) (P : ι → Prop) (u : ι) (hu : P u) (T : ι → ℝ) (INF : ℝ) (pr : ι → ι)
+    (h1 : ∀ v, P v → (u = v ∨ 1 ≤ sdist G u v))
+    (_h2 : ∀ v w, P v → ¬ P w → (u = w ∨ 1 ≤ sdist G u w) → wd G u v ≤ wd G u w)
+    (h3a : ∀ v w, P v → ¬ P w → G v w ≠ 0 → T w ≤ wd G u v + G v w ∧ wd G u v + G v w < INF)
+    (h3b : ∀ w, ¬ P w → T w = INF ∨ (P (pr w) ∧ G (pr w) w ≠ 0 ∧ T w = wd G u (pr w) + G (pr w) w)) :
+    (∀ x, ¬ P x → T x ≠ INF → (∀ w, ¬ P w → T x ≤ T w) → (u = x ∨ 1 ≤ sdist G u x) ∧ wd G u x = T x) ∧
+    ((∀ w, ¬ P w → T w = INF) → ∀ w, ¬ P w → ¬ (u = w ∨ 1 ≤ sdist G u w)) := by
+  have h1' : ∀ v, P v → reachw G u v := fun v hv => (reachw_iff_sdist G u v).mpr (h1 v hv)
+  have h3' : ∀ w, ¬ P w → (∀ v, P v → G v w ≠ 0 → T w ≤ wd G u v + G v w) ∧
+      (T w = INF ∨ ∃ v, P v ∧ G v w ≠ 0 ∧ T w = wd G u v + G v w) := by
+    intro w hw
+    refine ⟨fun v hv hvw => (h3a v w hv hw hvw).1, ?_⟩
+    rcases h3b w hw with h | h
+    · exact Or.inl h
+    · exact Or.inr ⟨pr w, h⟩
+  constructor
+  · intro x hx hxI hmin
+    obtain ⟨hr, hd⟩ := dijkstra_step G hG P u hu T INF h1' h3' x hx hmin hxI
+    exact ⟨(reachw_iff_sdist G u x).mp hr, hd⟩
+  · intro hall w hw hr
+    exact dijkstra_exhausted G hG P u hu T INF h3' (fun v w hv hw hvw => (h3a v w hv hw hvw).2) hall w hw
+      ((reachw_iff_sdist G u w).mpr hr)
+
+/-- `lemma_wd(G, n)` in the shape of the SMT instance (reachability written with `sdist`): `wd(x,x) == 0`, `wd >= 0` on reachable pairs,
+relaxation -/
+theorem wd_smt (G : ι → ι → ℝ) (hG : ∀ x y, 0 ≤ G x y) :
+    (∀ x, wd G x x = 0) ∧
+    (∀ x y, (x = y ∨ 1 ≤ sdist G x y) → 0 ≤ wd G x y) ∧
+    (∀ x y z, (x = y ∨ 1 ≤ sdist G x y) → G y z ≠ 0 → (x = z ∨ 1 ≤ sdist G x z) ∧ wd G x z ≤ wd G x y + G y z) := by
+  refine ⟨wd_self G hG, ?_, ?_⟩
+  · intro x y h
+    exact wd_nonneg G hG x y ((reachw_iff_sdist G x y).mpr h)
+  · intro x y z h hyz
+    obtain ⟨hr, hle⟩ := wd_relax G hG x y z ((reachw_iff_sdist G x y).mpr h) hyz
+    exact ⟨(reachw_iff_sdist G x z).mp hr, hle⟩
+
+/-- (D4, variant without lengths) if no connection leaves `P ∋ u`, nothing outside `P` is reachable from `u` -/
+theorem reachw_closed (G : ι → ι → ℝ) (P : ι → Prop) (u : ι) (hu : P u) (hcl : ∀ v w, P v → G v w ≠ 0 → P w) :
+    ∀ w, reachw G u w → P w := by
+  intro w hr
+  obtain ⟨m, h⟩ := (reachw_iff_walk G u w).mp hr
+  exact walk_closed G P u hu hcl m w h
+
+/-- all connection lengths are bounded below by some `δ > 0` (finitely many connections, each of positive length) -/
+theorem edge_min (G : ι → ι → ℝ) (hG : ∀ x y, 0 ≤ G x y) : ∃ δ : ℝ, 0 < δ ∧ ∀ a b, G a b ≠ 0 → δ ≤ G a b := by
+  classical
+  let s : Finset (ι × ι) := Finset.univ.filter (fun p => G p.1 p.2 ≠ 0)
+  by_cases hs : s.Nonempty
+  · obtain ⟨p, hp, hmin⟩ := Finset.exists_min_image s (fun p => G p.1 p.2) hs
+    have hp' : G p.1 p.2 ≠ 0 := (Finset.mem_filter.mp hp).2
+    refine ⟨G p.1 p.2, lt_of_le_of_ne (hG _ _) (Ne.symm hp'), ?_⟩
+    intro a b hab
+    exact hmin (a, b) (Finset.mem_filter.mpr ⟨Finset.mem_univ _, hab⟩)
+  · refine ⟨1, one_pos, ?_⟩
+    intro a b hab
+    exact absurd ⟨(a, b), Finset.mem_filter.mpr ⟨Finset.mem_univ _, hab⟩⟩ hs
+
+/-- a walk of `m` connections, each of length at least `δ`, has length at least `m * δ` -/
+theorem wwalk_ge (G : ι → ι → ℝ) (δ : ℝ) (hδ : ∀ a b, G a b ≠ 0 → δ ≤ G a b) (x : ι) :
+    ∀ m y ℓ, wwalk G x y m ℓ → (m : ℝ) * δ ≤ ℓ := by
+  intro m
+  induction m with
+  | zero =>
+    intro y ℓ h
+    rw [wwalk_zero] at h
+    rw [h.2]; simp
+  | succ m ih =>
+    intro y ℓ h
+    obtain ⟨z, ℓ', hz, hzy, hl⟩ := (wwalk_succ G x y m ℓ).mp h
+    have := ih z ℓ' hz
+    have := hδ z y hzy
+    push_cast
+    linarith
+
+/-- for a fixed number of connections there are only finitely many walk lengths -/
+theorem wwalk_finite (G : ι → ι → ℝ) (x : ι) : ∀ m y, ({ℓ | wwalk G x y m ℓ} : Set ℝ).Finite := by
+  intro m
+  induction m with
+  | zero =>
+    intro y
+    apply (Set.finite_singleton (0 : ℝ)).subset
+    intro ℓ h
+    exact h.2
+  | succ m ih =>
+    intro y
+    have hfin : (⋃ z : ι, (fun ℓ' => ℓ' + G z y) '' {ℓ' | wwalk G x z m ℓ'}).Finite :=
+      Set.finite_iUnion (fun z => (ih z).image _)
+    apply hfin.subset
+    intro ℓ h
+    obtain ⟨z, ℓ', hz, _, hl⟩ := (wwalk_succ G x y m ℓ).mp h
+    exact Set.mem_iUnion.mpr ⟨z, ℓ', hz, hl.symm⟩
+
+/-- (D1) attainment: the weighted distance is the length of some walk (the infimum is a minimum): walks not longer than a
+given walk have a bounded number of connections (`edge_min`, `wwalk_ge`), hence finitely many lengths (`wwalk_finite`) -/
+theorem wd_attained (G : ι → ι → ℝ) (hG : ∀ x y, 0 ≤ G x y) (x y : ι) (hr : reachw G x y) :
+    ∃ m, wwalk G x y m (wd G x y) := by
+  obtain ⟨m₀, ℓ₀, h₀⟩ := hr
+  obtain ⟨δ, hδ0, hδ⟩ := edge_min G hG
+  obtain ⟨N, hN⟩ := exists_nat_gt (ℓ₀ / δ)
+  -- the lengths, not exceeding `ℓ₀`, of walks from `x` to `y`
+  set S' : Set ℝ := {ℓ | (∃ m, wwalk G x y m ℓ) ∧ ℓ ≤ ℓ₀} with hS'
+  have hfin : S'.Finite := by
+    have hU : (⋃ m ∈ {m : ℕ | m ≤ N}, {ℓ | wwalk G x y m ℓ}).Finite :=
+      (Set.finite_le_nat N).biUnion (fun m _ => wwalk_finite G x m y)
+    apply hU.subset
+    rintro ℓ ⟨⟨m, hm⟩, hle⟩
+    have h1 := wwalk_ge G δ hδ x m y ℓ hm
+    have h2 : (m : ℝ) < N := by
+      have : (m : ℝ) ≤ ℓ₀ / δ := by
+        rw [le_div_iff₀ hδ0]; linarith
+      linarith
+    have h3 : m ≤ N := by exact_mod_cast h2.le
+    exact Set.mem_biUnion (show m ∈ {m : ℕ | m ≤ N} from h3) hm
+  have hne : S'.Nonempty := ⟨ℓ₀, ⟨m₀, h₀⟩, le_refl _⟩
+  have hmem : sInf S' ∈ S' := hne.csInf_mem hfin
+  have hlow : ∀ ℓ ∈ S', sInf S' ≤ ℓ := fun ℓ hℓ => csInf_le hfin.bddBelow hℓ
+  have hleast : IsLeast {ℓ | ∃ m, wwalk G x y m ℓ} (sInf S') := by
+    refine ⟨hmem.1, ?_⟩
+    rintro ℓ ⟨m, hm⟩
+    by_cases hle : ℓ ≤ ℓ₀
+    · exact hlow ℓ ⟨⟨m, hm⟩, hle⟩
+    · have := hlow ℓ₀ ⟨⟨m₀, h₀⟩, le_refl _⟩
+      linarith
+  have heq : wd G x y = sInf S' := hleast.csInf_eq
+  rw [heq]
+  exact hmem.1
+
+/-- (D1, consequence) the weighted distance as a minimum: some walk has length `wd` and no walk is shorter -/
+theorem wd_isLeast (G : ι → ι → ℝ) (hG : ∀ x y, 0 ≤ G x y) (x y : ι) (hr : reachw G x y) :
+    IsLeast {ℓ | ∃ m, wwalk G x y m ℓ} (wd G x y) :=
+  ⟨wd_attained G hG x y hr, fun ℓ ⟨m, h⟩ => wd_le G hG x y m ℓ h⟩
+
+/-- a node different from the source has positive weighted distance -/
+theorem wd_pos (G : ι → ι → ℝ) (hG : ∀ x y, 0 ≤ G x y) (x y : ι) (hr : reachw G x y) (hxy : x ≠ y) : 0 < wd G x y := by
+  obtain ⟨m, hm⟩ := wd_attained G hG x y hr
+  obtain ⟨δ, hδ0, hδ⟩ := edge_min G hG
+  have h1 := wwalk_ge G δ hδ x m y _ hm
+  rcases Nat.eq_zero_or_pos m with h0 | hpos
+  · rw [h0] at hm
+    exact absurd hm.1 hxy
+  · have : (1 : ℝ) ≤ m := by exact_mod_cast hpos
+    nlinarith
+
+/-- the last connection of a shortest walk: a reachable `y ≠ x` has a predecessor `v` with `wd(G,x,y) == wd(G,x,v) + G[v][y]` -/
+theorem wd_pred (G : ι → ι → ℝ) (hG : ∀ x y, 0 ≤ G x y) (x y : ι) (hr : reachw G x y) (hxy : x ≠ y) :
+    ∃ v, reachw G x v ∧ G v y ≠ 0 ∧ wd G x y = wd G x v + G v y := by
+  obtain ⟨m, hm⟩ := wd_attained G hG x y hr
+  rcases Nat.eq_zero_or_pos m with h0 | hpos
+  · rw [h0] at hm
+    exact absurd hm.1 hxy
+  · obtain ⟨j, rfl⟩ : ∃ j, m = j + 1 := ⟨m - 1, by omega⟩
+    obtain ⟨v, ℓ', hv, hvy, hl⟩ := (wwalk_succ G x y j _).mp hm
+    have hrv : reachw G x v := ⟨j, ℓ', hv⟩
+    refine ⟨v, hrv, hvy, le_antisymm (wd_relax G hG x v y hrv hvy).2 ?_⟩
+    have := wd_le G hG x v j ℓ' hv
+    linarith
+
+end dijkstra
+
+-- (tenth batch, `section dijkstra`: definitions `wwalk`, `reachw`, `wd`; `wd_self`, `wd_nonneg`, `wd_le`, `le_wd`, `wd_approx`, `wd_attained`
+--  (the infimum is a minimum), `wd_relax`, `wd_triangle`, `wwalk_cross(_wd)`, `dijkstra_lower`, `dijkstra_step`, `dijkstra_step_le`,
+--  `dijkstra_step_inv`, `dijkstra_step_T`, `dijkstra_init`, `dijkstra_exhausted`, `dijkstra_smt`, `wd_smt`, `reachw_iff_sdist`, `reachw_iff_walk(_pos)`, `wd_pos`, `wd_pred`:
+--  all proved.)
 
 end VerifLemmas
